@@ -42,8 +42,8 @@ def run_and_validate(ctx, binary, name, scenarios, timeout=1800, env_extra=None,
     d = ctx.sub("t_" + name)
     inp, outp = os.path.join(d, "scen.ndjson"), os.path.join(d, "trace.ndjson")
     with open(inp, "w") as fh:
-        for s in scenarios:
-            fh.write(json.dumps(s) + "\n")
+        for i, s in enumerate(scenarios):
+            fh.write(json.dumps(dict(s, alt=i % 2)) + "\n")     # every other scenario builds its policies through the alternative builder spellings
     r = vlib.run_harness(ctx, binary, "tscen", args={"in": inp, "out": outp}, timeout=timeout, env_extra=env_extra)
     recs, summ = vlib.harness_summary(ctx, r, "tscen")
     problems = [x for x in recs if x.get("k") == "problem"]
